@@ -174,6 +174,18 @@ CHECKS.update({
    note="Trusted: TLC, lib/sbparse.py + the check's descriptor parser, the reader's tree digest. Block sizes 1k/2k/4k with small -g; meta_bg, sparse_super2 (0/1/2 backups), flex_bg, 64bit.",
    technique="TLA+ model of backup placement and refresh rules (TLC) + trace validation of real tool sequences and recoveries from every backup location"),
 })
+CHECKS.update({
+ "C06": dict(level="exploration",
+   text="Partially decided by the specification (DESIGN.md section 6): TLA+ decides the tool-run contract, not memory safety itself. ToolExit.tla (extends C13's ToolRun.tla) holds the per-tool / per-mode "
+        "table of documented exit statuses and the invariants TerminatedWithinBound, NoSignal, NoMemoryError, NoUndefinedBehaviour, ExitDocumented (TLC: the documented tool satisfies Robust; with fault "
+        "steps enabled TLC must find it violated). Conformance: an ASan+UBSan build of the current tree runs e2fsck -n/-p/-y, debugfs read-only requests, dumpe2fs, tune2fs -l, resize2fs -P, e2image, "
+        "e2undo, e2freefrag over a closed seeded universe (C06Universe.tla: structured single/multi-field corruptions of every metadata object class of 15 profiles through the reader's location map, "
+        "damaged journals, undo files, qcow2 images, external journal, raw byte strings, byte mutations); every run is two trace lines {start} {exit, signal, timeout, sanitizer report kinds} validated "
+        "by TLC against Trace_ToolExit; failing runs are grouped by signature, re-run alone, minimised and reported.",
+   note="Level exploration: sanitizers are an observation amplifier; no report is no proof of absence. 15 defects found on the pinned tree were repaired (9 fix: commits); three UBSan kinds outside the "
+        "property's list (alignment, signed overflow in offset arithmetic, shift exponent) are known findings. Time bound = 20 s CPU of the tool process. Each tier is a seeded sample of the catalogue.",
+   technique="TLA+ tool-run contract (TLC) + trace validation of sanitizer-instrumented tool runs over a spec-defined corruption catalogue"),
+})
 # only these are written to MANIFEST.json (a check enters the list after its quick tier has passed on /repo HEAD itself)
-REGISTERED = ["C02", "C03", "C04", "C07", "C08", "C09", "C10", "C11", "C12", "C13", "C14", "C15", "C16", "C17", "C18", "C19"]
+REGISTERED = ["C02", "C03", "C04", "C05", "C07", "C08", "C09", "C10", "C11", "C12", "C13", "C14", "C15", "C16", "C17", "C18", "C19", "C20"]
 NA = {}
